@@ -4,7 +4,9 @@ import SfntV.Model.TotalGsubSub
 Line protocol of the `tmgsubsub.` verdict ops (property C02, group `gsubsub`):
 `tmgsubsub.read bytes=<hex> pos=<n> type=<lookup type>` → the outcome of the checked-index model
 of `readGsubSubtable` (format word at `pos`, then `readGsub1_1/1_2/2_1/3_1/4_1/8_1`):
-`ok:<subtable>` | `err:<io|invalid|unsupported|foreign>` | `panic`.
+`ok:<subtable>` | `err:<io|invalid|unsupported|foreign>` | `panic` (`foreign`: a VALID key of another
+group's reader, lookup types 5, 6, 7; lookup types and formats above 9 are `invalid` since the
+dispatcher repair).
 Canonical subtables (coverage `s-e:i` = maximal runs in which glyph id and coverage index both go
 up by one; set `s-e` = maximal runs of consecutive glyph ids):
   `1.1;cov=<set runs>;delta=<d>`            `1.2;cov=<runs>;subs=<g,g,…>`
